@@ -2,8 +2,9 @@
    ExtrOcamlBasic only; no Extract Constant. *)
 From Coq Require Import Extraction ExtrOcamlBasic.
 From Coq Require Import NArith ZArith List.
-From GV Require Import model.Resolve gen.TablesTyping model.ResolveSrc.
+From GV Require Import model.Resolve gen.TablesTyping model.ResolveSrc model.Sql model.Typing.
 Extraction "extract/typing_model.ml"
   ResolveSrc.src_params TablesTyping.scalar_sets TablesTyping.aggregate_sets
   Resolve.classify_lit Resolve.find_exact Resolve.find_candidates Resolve.maximal Resolve.pick Resolve.total
-  Resolve.resolve Resolve.ties_of Resolve.multi_max_of Resolve.unify_cols Resolve.all_inputs.
+  Resolve.resolve Resolve.ties_of Resolve.multi_max_of Resolve.unify_cols Resolve.all_inputs
+  Typing.type_of Typing.annotate Typing.agg_type.
